@@ -51,7 +51,10 @@ def main():
         print('=====', name, flush=True)
         props = [p for p in ALL if p not in ('C13', 'C14') or name.startswith(p)]
         if '--target-only' in a:
-            props = [name[:3]]
+            try:
+                props = [json.load(open(os.path.join(d, name, 'meta.json'))).get('checked_by') or name[:3]]
+            except Exception:
+                props = [name[:3]]
         try:
             seedtool.detect(name, props, scratch, tier)
         except SystemExit as e:
